@@ -195,6 +195,20 @@ theorem memFrom_max {cur rs inR} (h : WF cur rs inR) {x : Nat} (hx : UMAX ≤ x)
       have := SortedFrom.not_mem_max c x hx
       simp [memFrom, this]; omega
 
+theorem WF_advE {cur rs inR} (h : WF cur rs inR) :
+    WF (nextPos rs inR).bytes (advE rs inR).1 (advE rs inR).2 := by
+  unfold advE
+  split
+  · rename_i hc; obtain ⟨rfl, rfl⟩ := hc; simp [WF]
+  · exact WF_adv h
+
+theorem memFrom_afterE {cur rs inR} (h : WF cur rs inR) {x : Nat}
+    (hge : (nextPos rs inR).bytes ≤ x) : memFrom rs inR x ↔ memFrom (advE rs inR).1 (advE rs inR).2 x := by
+  unfold advE
+  split
+  · exact Iff.rfl
+  · exact memFrom_after h hge
+
 /-! ## The loop -/
 
 /-- Exactly one of two propositions holds. -/
@@ -282,13 +296,13 @@ theorem symDiffLoop_spec (old new : List TSRange) (cur : Length) (inOld inNew : 
     have hle : cur.bytes ≤ nn.bytes := cur_le_nextPos hn hc
     have hnn : nn.bytes ≤ UMAX := nextPos_le_max hn
     have hacc := acc_step racc0 cur nn inOld inNew ha hle
-    have ih' := ih (heq ▸ WF_adv ho) (WF_adv hn) hnn hacc.1
+    have ih' := ih (heq ▸ WF_advE ho) (WF_advE hn) hnn hacc.1
     refine ⟨ih'.1, fun x => ?_⟩
     rw [ih'.2 x]
     exact step_algebra hle (hacc.2 x)
       (fun a b => memFrom_before ho a (heq ▸ b))
       (fun a b => memFrom_before hn a b)
-      (fun a => memFrom_after ho (heq ▸ a)) (fun a => memFrom_after hn a)
+      (fun a => memFrom_afterE ho (heq ▸ a)) (fun a => memFrom_afterE hn a)
 
 /-- Converse of `Chain.strictSorted`. -/
 theorem chain_of_strictSorted {hi : Nat} : ∀ {l : List TSRange}, StrictSorted l.reverse →
